@@ -1,4 +1,5 @@
 import Proofs.Lemmas.Solver
+import Proofs.Lemmas.SolverOutcome
 /-
 C02 — Per-period solve: status, iteration count, result flag and convergence agree.
 
@@ -255,6 +256,48 @@ example : solveT exI { maxIter := 3 } 5 (-1) ⟨0, List.replicate 5 .unsolved, L
 example : solveT exI { maxIter := 0, failRaise := false } 5 2
       ⟨0, List.replicate 5 .unsolved, List.replicate 5 (-1)⟩
     = (⟨0, [.unsolved, .unsolved, .failed, .unsolved, .unsolved], [-1, -1, 0, -1, -1]⟩, .ret false) := by
+  decide
+
+/-! ### The record of earlier solves never feeds back -/
+
+/-- **Factorisation through the user state.** For given values (user state `u`) there is one outcome — new user
+    state, at most one stamp `(status, iterations)` at the period, result — and `solve_t` applies it whatever
+    `status` / `iterations` hold: the bookkeeping is written, never read. -/
+theorem solveT_outcome_exists (u : σ) :
+    ∃ oc : Outcome σ, ∀ (st : List Status) (it : List Int),
+      solveT I o n t ⟨u, st, it⟩ = applyOutcome n t ⟨u, st, it⟩ oc :=
+  ⟨outcomeOf I o n t u, fun st it => solveT_eq_outcome I o n t ⟨u, st, it⟩⟩
+
+/-- **History-independence.** The same call from the same values gives the same values, the same hook effects and the
+    same result (return value or exception), whatever record earlier calls left in `status` and `iterations` —
+    a period solved before, failed before or never touched behaves alike. -/
+theorem solveT_history_irrelevant (u : σ) (st st' : List Status) (it it' : List Int) :
+    (solveT I o n t ⟨u, st, it⟩).1.user = (solveT I o n t ⟨u, st', it'⟩).1.user ∧
+    (solveT I o n t ⟨u, st, it⟩).2 = (solveT I o n t ⟨u, st', it'⟩).2 := by
+  simp only [solveT_eq_outcome, applyOutcome_user, applyOutcome_result, and_self]
+
+/-- …and it leaves the same record: either the call records nothing (in either history), or it records the same
+    status and the same iteration count at the period in both. -/
+theorem solveT_stamp_history_irrelevant (u : σ) (st st' : List Status) (it it' : List Int)
+    (i : Nat) (hi : pyIndex n t = some i)
+    (hs : i < st.length) (hs' : i < st'.length) (hk : i < it.length) (hk' : i < it'.length) :
+    ((solveT I o n t ⟨u, st, it⟩).1.status = st ∧ (solveT I o n t ⟨u, st, it⟩).1.iters = it ∧
+     (solveT I o n t ⟨u, st', it'⟩).1.status = st' ∧ (solveT I o n t ⟨u, st', it'⟩).1.iters = it') ∨
+    ∃ (s : Status) (k : Int),
+      (solveT I o n t ⟨u, st, it⟩).1.status[i]? = some s ∧ (solveT I o n t ⟨u, st', it'⟩).1.status[i]? = some s ∧
+      (solveT I o n t ⟨u, st, it⟩).1.iters[i]? = some k ∧ (solveT I o n t ⟨u, st', it'⟩).1.iters[i]? = some k := by
+  simp only [solveT_eq_outcome]
+  rcases outcomeOf I o n t u with ⟨u', _ | ⟨s, k⟩, r⟩
+  · left; simp only [applyOutcome, withUser, and_self]
+  · right
+    refine ⟨s, k, ?_⟩
+    simp only [applyOutcome, stamp, withUser, hi]
+    exact ⟨setAt_getElem?_eq _ _ _ hs, setAt_getElem?_eq _ _ _ hs', setAt_getElem?_eq _ _ _ hk,
+           setAt_getElem?_eq _ _ _ hk'⟩
+
+/-- Non-vacuity: a period already marked 'F' with 7 iterations re-solves exactly like a fresh one. -/
+example : (solveT exI { maxIter := 10 } 5 2 ⟨0, [.unsolved, .error, .failed, .solved, .skipped], [-1, 3, 7, 2, 1]⟩)
+    = (⟨3, [.unsolved, .error, .solved, .solved, .skipped], [-1, 3, 4, 2, 1]⟩, .ret true) := by
   decide
 
 end Fsic.C02
